@@ -38,19 +38,22 @@ Definition judge_16 (id : N) (l : assign) (o : obs) : bool :=
 Definition judge_13 (id : N) (l : assign) (o : obs) : bool :=
   match spec_of id with Some e => judge13 id_u_aes_self_tests id_u_sha_self_tests e l o | None => false end.
 
-(* the region candidates of the keys an entry's question depends on *)
+(* the region candidates of the keys an entry's question depends on (for the native sweep: the
+   atoms the engine does not support are left out here, they make the obligation itself fail) *)
+Definition supported_atoms (l : list sval) : list sval :=
+  filter (fun a => match atom_info a with Some _ => true | None => false end) l.
 Definition cands16 (id : N) : list (skey * list N) :=
   match spec_of id, ftab_get WrappersGen.table id with
   | Some e, Some d =>
-      match atoms_info (atomsQ (entry_tree WrappersGen.table d) (forms16 e)) with
+      match atoms_info (supported_atoms (atomsQ (entry_tree WrappersGen.table d) (forms16 e))) with
       | Some inf => cand_table inf | None => [] end
   | _, _ => []
   end.
 Definition cands13 (id : N) : list (skey * list N) :=
   match spec_of id, ftab_get WrappersFipsGen.table id with
   | Some e, Some d =>
-      match atoms_info (atomsQ (entry_tree WrappersFipsGen.table d)
-                               (forms13 id_u_aes_self_tests id_u_sha_self_tests e)) with
+      match atoms_info (supported_atoms (atomsQ (entry_tree WrappersFipsGen.table d)
+                               (forms13 id_u_aes_self_tests id_u_sha_self_tests e))) with
       | Some inf => cand_table inf | None => [] end
   | _, _ => []
   end.
